@@ -79,6 +79,8 @@ pub struct Ctx {
     pub heap_b: usize,
     /// largest observed peak/bound ratio in permille and the entry point it was seen at (C01 margin probe)
     pub heap_margin: (u64, &'static str),
+    /// named counters summed over the batch (reach measurement)
+    pub counters: Vec<(&'static str, u64)>,
 }
 
 impl Ctx {
@@ -98,6 +100,7 @@ impl Ctx {
             heap_a: crate::heap_bound_a(),
             heap_b: 4096,
             heap_margin: (0, ""),
+            counters: Vec::new(),
         }
     }
 
@@ -125,6 +128,14 @@ impl Ctx {
             e.1 += 1;
         } else {
             self.faults.push((name, 1));
+        }
+    }
+
+    pub fn count(&mut self, name: &'static str, n: u64) {
+        if let Some(e) = self.counters.iter_mut().find(|e| e.0 == name) {
+            e.1 += n;
+        } else {
+            self.counters.push((name, n));
         }
     }
 
@@ -210,6 +221,7 @@ pub struct Stats {
     pub digests: Vec<(u64, u64)>,
     pub harness_errors: Vec<String>,
     pub heap_margin: (u64, String),
+    pub counters: BTreeMap<&'static str, u64>,
 }
 
 impl Stats {
@@ -247,6 +259,9 @@ impl Stats {
         }
         if ctx.heap_margin.0 > self.heap_margin.0 {
             self.heap_margin = (ctx.heap_margin.0, ctx.heap_margin.1.to_string());
+        }
+        for (k, v) in &ctx.counters {
+            *self.counters.entry(k).or_insert(0) += v;
         }
     }
 
@@ -286,6 +301,9 @@ impl Stats {
         }
         self.digests.extend(o.digests);
         self.harness_errors.extend(o.harness_errors);
+        for (k, v) in o.counters {
+            *self.counters.entry(k).or_insert(0) += v;
+        }
         if o.heap_margin.0 > self.heap_margin.0 || (o.heap_margin.0 == self.heap_margin.0 && o.heap_margin.1 < self.heap_margin.1) {
             self.heap_margin = o.heap_margin;
         }
